@@ -196,3 +196,24 @@ Proof.
   rewrite Q2R_Qred', !Q2R_mult, Q2R_plus, Q2R_mult, Q2R_plus, Q2R_opp, Q2R_Qred', Q2R_dot. 
   replace (Q2R 1) with 1 by (unfold Q2R; cbn; field). reflexivity.
 Qed.
+
+(* ---------- ROADM side of the accumulation ---------- *)
+Lemma gen_roadm_pmd_update : forall x y : R, @g_roadm_pmd_update NumR x y = quad_step x y.
+Proof. intros. reflexivity. Qed.
+Lemma gen_roadm_pdl_update : forall x y : R, @g_roadm_pdl_update NumR x y = quad_step x y.
+Proof. intros. reflexivity. Qed.
+
+Lemma gen_roadm_profile : forall A (profiles : list (Z * Z * A)) global pt id,
+  g_roadm_profile profiles global pt id = roadm_profile profiles global pt id.
+Proof.
+  intros A profiles global pt id. unfold g_roadm_profile, roadm_profile. destruct id as [i|].
+  - induction profiles as [|[[j t] a] r IH]; [reflexivity|]. cbn [fold_right profile_by_id].
+    destruct (Z.eqb j i); [reflexivity|exact IH].
+  - induction profiles as [|[[j t] a] r IH]; [reflexivity|]. cbn [fold_right first_of_type].
+    destruct (Z.eqb t pt); [reflexivity|exact IH].
+Qed.
+
+(* the id 0 is an id: a crossing bound to profile 0 gets profile 0, wherever it stands in the library *)
+Lemma roadm_profile_id0 : forall A (profiles : list (Z * Z * A)) global pt a,
+  profile_by_id profiles 0%Z = Some a -> roadm_profile profiles global pt (Some 0%Z) = Ok a.
+Proof. intros A profiles global pt a H. unfold roadm_profile. rewrite H. reflexivity. Qed.
